@@ -457,9 +457,69 @@ func TestVerifC12Hostile(t *testing.T) {
 				}
 				return true
 			}
+			// dials to addresses learnt from peer exchange go nowhere: each attempt takes twenty (virtual) seconds
+			slowDials := router == "gossipsub" && c.Chance(0.5)
+			if slowDials {
+				nd.h.inj.add(&vRule{op: vOpConnect, delay: 20 * time.Second, err: fmt.Errorf("dial timeout (injected)")})
+			}
 			nIn := c.Range(6, 24)
 			for i := 0; i < nIn && !c.Violated(); i++ {
 				p := bad[c.Intn(nBad)]
+				if slowDials && !unknown[p] && (i == 0 || c.Chance(0.05)) {
+					// peer exchange flood: one well-formed RPC whose PRUNEs for the joined topic name far more (validly
+					// signed, unreachable) peers than the connectors and their backlog can take
+					ctl := &pb.ControlMessage{}
+					nPr := c.Range(9, 20)
+					for j := 0; j < nPr; j++ {
+						t, bo := "t", uint64(c.Range(1, 5))
+						pr := &pb.ControlPrune{TopicID: &t, Backoff: &bo}
+						for k := 0; k < 16; k++ {
+							id, _, rec := c09Record(c, r.n)
+							pr.Peers = append(pr.Peers, &pb.PeerInfo{PeerID: []byte(id), SignedPeerRecord: rec})
+						}
+						ctl.Prune = append(ctl.Prune, pr)
+					}
+					what := fmt.Sprintf("pxflood (%d PRUNE x 16 peers) from %s (%s)", nPr, p.name, p.protos[0])
+					c.Crumb("%s", what)
+					p.Send(me, &pb.RPC{Control: ctl})
+					vSettle(30 * time.Millisecond)
+					classes["pxflood"]++
+					c.Count("px_dials_started", len(nd.h.Connects()))
+					if !probe(what) {
+						break
+					}
+					continue
+				}
+				if !unknown[p] && c.Chance(0.08) {
+					// the peer stays connected, keeps its own stream, and resets every stream the node opens to it until the
+					// node gives up respawning its writer; traffic for the topic the peer announced must not hurt the node then
+					what := fmt.Sprintf("refuse_outbound from %s (%s)", p.name, p.protos[0])
+					c.Crumb("%s", what)
+					p.Refuse(true)
+					p.CloseIn(me, true)
+					vSettle(time.Duration(c.Range(1, 8)) * time.Second)
+					p.Send(me, vSubRPC(true, "t"))
+					vSettle(30 * time.Millisecond)
+					classes["refuse_outbound"]++
+					ok := probe(what)
+					if ok {
+						// local announcements and the router's own traffic go to every known peer as well
+						if tp2, err := nd.ps.Join("u"); err == nil {
+							if s2, err := tp2.Subscribe(); err == nil {
+								vSettle(30 * time.Millisecond)
+								s2.Cancel()
+							}
+							vSettle(30 * time.Millisecond)
+							tp2.Close()
+						}
+						ok = probe(what + " + local announcement")
+					}
+					p.Refuse(false)
+					if !ok {
+						break
+					}
+					continue
+				}
 				if !unknown[p] && c.Chance(0.12) {
 					// a message that sits in a slow validator while its sender tears the connection (or just its streams)
 					// down; the verdict (accept / reject / ignore) arrives when the sender is gone, then the sender returns
